@@ -27,6 +27,8 @@ import (
 // reader still holding the buffer sees garbage deterministically, and the next Get checks that
 // nobody wrote into it while it was in the pool.
 
+const verifEnabled = true
+
 const verifPoison = 0xDB
 
 var verifPool = struct { //nolint:gochecknoglobals
